@@ -97,14 +97,23 @@ func ext۰bytes۰IndexByte(fr *frame, args []value) value {
 }
 
 func ext۰math۰Float64frombits(fr *frame, args []value) value {
+	if s, ok := args[0].(sym); ok {
+		return fr.i.px.fpFromBits(s, 64)
+	}
 	return math.Float64frombits(args[0].(uint64))
 }
 
 func ext۰math۰Float64bits(fr *frame, args []value) value {
+	if s, ok := args[0].(sym); ok {
+		return fr.i.px.fpToBits(s)
+	}
 	return math.Float64bits(args[0].(float64))
 }
 
 func ext۰math۰Float32frombits(fr *frame, args []value) value {
+	if s, ok := args[0].(sym); ok {
+		return fr.i.px.fpFromBits(s, 32)
+	}
 	return math.Float32frombits(args[0].(uint32))
 }
 
@@ -121,6 +130,9 @@ func ext۰math۰Exp(fr *frame, args []value) value {
 }
 
 func ext۰math۰Float32bits(fr *frame, args []value) value {
+	if s, ok := args[0].(sym); ok {
+		return fr.i.px.fpToBits(s)
+	}
 	return math.Float32bits(args[0].(float32))
 }
 
